@@ -443,7 +443,50 @@ def mut_cornish_fisher(repo: Repo) -> List[Mutant]:
     return out
 
 
+# ------------------------------------------------------------------ Gram-Charlier A series: coefficients are complete Bell polynomials of the cumulants
+GC = "expansions/gram_charlier.py"
+
+
+def rule_gram_charlier(repo: Repo) -> List[Ob]:
+    """f(x) = phi(x) * (1 + sum_{i>=3} B_i(0, 0, k3, .., ki) / (i! sigma**i) * He_i((x - mu)/sigma)).  B_i = k_i only for i <= 5
+    (B_6 = k6 + 10 k3**2): a coefficient built from the i-th cumulant alone is the truncated textbook formula."""
+    f = repo.function(GC, "GramCharlierExpansion.__call__")
+    key = f"{GC}::GramCharlierExpansion.__call__::bell-coefficient"
+    from ..shape import expanded
+    fx = expanded(repo, f)
+    defs = Defs(fx, f.params()[0])
+    loops = [l for l in walk_no_nested(fx) if isinstance(l, ast.For) and isinstance(l.target, ast.Name)]
+    herm = [c for c in walk_no_nested(fx) if isinstance(c, ast.Call) and "hermite" in (call_name(c) or "")]
+    if not loops or not herm:
+        return [inconclusive(R, key, GC, f.node.lineno, f.qualname, "loop over the orders / Hermite factor not recognised")]
+    # the product  <coefficient> * <hermite part>  that is accumulated
+    prods = [b for b in walk_no_nested(fx) if isinstance(b, ast.BinOp) and isinstance(b.op, ast.Mult) and any("call:" in r and "hermite" in r for r in defs.roots(b))]
+    if not prods:
+        return [inconclusive(R, key, GC, herm[0].lineno, f.qualname, "coefficient of the Hermite polynomial not recognised")]
+    b = prods[0]
+    sides = [b.left, b.right]
+    coeff = next((x for x in sides if not any("hermite" in r for r in defs.roots(x))), None)
+    if coeff is None:
+        return [inconclusive(R, key, GC, b.lineno, f.qualname, "coefficient of the Hermite polynomial not separated")]
+    r = defs.roots(coeff)
+    uses_bell = any(x.startswith("call:") and "bell" in x for x in r)
+    uses_cum = any(x.endswith("cumulants") for x in r)
+    if uses_bell:
+        return [Ob(R, key, GC, b.lineno, f.qualname, True, "the coefficient of He_i is the complete Bell polynomial of the cumulants over i! sigma**i")]
+    if uses_cum:
+        return [Ob(R, key, GC, b.lineno, f.qualname, False,
+                   f"the coefficient `{src(coeff)[:50]}` of He_i comes from the cumulants without the Bell polynomial: from order 6 on the cross terms (10 k3**2 in B_6) are missing, the "
+                   "density no longer has the cumulants it was built from")]
+    return [inconclusive(R, key, GC, b.lineno, f.qualname, "origin of the coefficient not recognised")]
+
+
+def mut_gram_charlier(repo: Repo) -> List[Mutant]:
+    ov = text_mutant(repo, GC, "bell_part = ce_bell_poly(i, *bell_args) / (factorial(i) * sigma ** i)", "bell_part = sympy2symengine(self.cumulants[i]) / (factorial(i) * sigma ** i)")
+    return [Mutant("coefficient-is-the-bare-cumulant", ov, "fire", "bell-coefficient", control=True)] if ov else []
+
+
 RULES = {
+    "GRAMCHARLIER": Rule(R, rule_gram_charlier, 1, "Gram-Charlier coefficients are complete Bell polynomials of the cumulants", mut_gram_charlier, soft=True),
     "TAILBOUNDS": Rule(R, rule_tail_bounds, 2, "Markov bounds are E(M**k)/a**k for every requested order; the lower bound is (m1-a)**2/(m2-2am1+a**2)", mut_tail_bounds, soft=True),
     "KINDCONV": Rule(R, rule_kind_converters, 4, "cumulant / central goals use their own conversion, report the entry of the goal's order and request the raw moments up to it", mut_kind_converters, soft=True),
     "CORNISHFISHER": Rule(R, rule_cornish_fisher, 2, "the Cornish-Fisher recursion xi_h and its coefficients a_k are the published ones (source-level identities)", mut_cornish_fisher, soft=True),
